@@ -68,16 +68,29 @@ Theorem C12_decode_expr_agree : forall arrays v rk s1 s2,
 Proof. exact decode_expr_agree. Qed.
 Print Assumptions C12_decode_expr_agree.
 
-(* findings: the decoder can panic, and can put a table into another array *)
-Theorem C12_decoder_panics_refuted :
-  decode [EArrayTable [ka; kb]; EArrayTable [ka]; EArrayTable [ka]] = Err EPanic.
-Proof. exact decoder_panics. Qed.
-Print Assumptions C12_decoder_panics_refuted.
+(* findArrayPrefix hands out the array with the key itself or with a proper prefix of it, at the index
+   reported (C12-toml-decoder-panic, fixed: no zeroed or shifted slot any more) *)
+Theorem C12_find_array_prefix_sound : forall k arrays seen i a arrays2 seen2,
+  find_array_prefix k arrays seen = (FSome i a, arrays2, seen2) ->
+  nth_error arrays2 i = Some a /\
+  (rkey_eqb (oa_key a) k = true \/ proper_prefix (oa_key a) k = true).
+Proof. exact find_array_prefix_sound. Qed.
+Print Assumptions C12_find_array_prefix_sound.
 
-Theorem C12_decoder_misplaces_refuted :
+(* the former witnesses: [[a.b]] [[a]] [[a]] appends to a (CUE then reports the table/list conflict),
+   [[a.b]] [[a]] [[c]] [[a]] x = 1 puts x into the second element of a *)
+Theorem C12_sub_array_first_appends :
+  decode [EArrayTable [ka; kb]; EArrayTable [ka]; EArrayTable [ka]] =
+  Ok (OStruct [(ka, OStruct [(kb, OList [OStruct []])]); (ka, OList [OStruct []; OStruct []])]) /\
+  eval 8 (OStruct [(ka, OStruct [(kb, OList [OStruct []])]); (ka, OList [OStruct []; OStruct []])]) = None.
+Proof. exact sub_array_first_appends. Qed.
+Print Assumptions C12_sub_array_first_appends.
+
+Theorem C12_sub_array_first_keeps_arrays_apart :
   decode [EArrayTable [ka; kb]; EArrayTable [ka]; EArrayTable [kc]; EArrayTable [ka];
           EKeyValue [kx] (VLeaf 1%N)] =
-  Ok (OStruct [(ka, OStruct [(kb, OList [OStruct []])]); (ka, OList [OStruct []]);
-               (kc, OList [OStruct []; OStruct [(kx, OLeaf 1%N)]])]).
-Proof. exact decoder_misplaces. Qed.
-Print Assumptions C12_decoder_misplaces_refuted.
+  Ok (OStruct [(ka, OStruct [(kb, OList [OStruct []])]);
+               (ka, OList [OStruct []; OStruct [(kx, OLeaf 1%N)]]);
+               (kc, OList [OStruct []])]).
+Proof. exact sub_array_first_keeps_arrays_apart. Qed.
+Print Assumptions C12_sub_array_first_keeps_arrays_apart.
